@@ -210,6 +210,20 @@ impl InputList {
         Ok(Self { events })
     }
 
+    /// Convert to output events which are written exactly as read; in particular
+    /// text is exempt from the writer's white space tidying.
+    pub fn into_verbatim_output(self) -> OutputList {
+        let events: Vec<OutputEvent> = self
+            .events
+            .into_iter()
+            .map(|ev| match ev.event {
+                Event::Text(_) => OutputEvent::Other(ev.event),
+                _ => ev.into(),
+            })
+            .collect();
+        events.into()
+    }
+
     pub fn slice(&self, start: usize, end: usize) -> Self {
         Self {
             events: self.events[start..end].to_vec(),
